@@ -33,6 +33,7 @@ pub struct RStats {
     pub noise_sets: u64,
     pub thread_hops: u64,
     pub mutations: u64,
+    pub vocabulary_churn: u64,
 }
 
 impl RStats {
@@ -58,6 +59,7 @@ impl RStats {
         self.noise_sets += o.noise_sets;
         self.thread_hops += o.thread_hops;
         self.mutations += o.mutations;
+        self.vocabulary_churn += o.vocabulary_churn;
     }
     pub fn pairs(&self) -> Vec<(&'static str, u64)> {
         vec![
@@ -84,6 +86,7 @@ impl RStats {
             ("history_noise_sets", self.noise_sets),
             ("caller_thread_hops", self.thread_hops),
             ("in_place_mutation_after_hashing", self.mutations),
+            ("vocabulary_churn_fresh_names", self.vocabulary_churn),
         ]
     }
 }
